@@ -1,5 +1,14 @@
+import raychk
 import switches
 
 
 def check(rep, tier, replay=None):
     switches.run(rep, "C02")
+    rep.explanations.append(
+        "Rule T (engine R, lib/rays.py): the tangent input is abstracted as a = t*a0 along rational rays; the optimized IR of the witness is "
+        "interpreted in the domain of truncated power series in t over exact rationals, and the closed-form path must reproduce the "
+        "defining series coefficient by coefficient to order 8 (matrix(exp(a)) = sum hat(a)^k/k!, log(exp(a)) = a); polynomial branches of small-angle switches may differ only "
+        "by terms below the tolerance at the largest t that selects them.  A mismatch is a definite violation; agreement along the rays "
+        "examined is a necessary condition of the identity for all a (not a proof).  Rounding is not modelled.")
+    rep.trusted.update(["lib/rays.py / lib/jet.py exact series arithmetic", "clang++-16 -O2 pipeline (value-preserving without -ffast-math)"])
+    raychk.run(rep, tier, "C02", ["exp", "logexp"], 1e-9)
